@@ -17,7 +17,7 @@ Fx == <<[n |-> "fx", v |-> "probe.test/fx"]>>
 Base ==
   [EmptyCfg EXCEPT
      !.meta = [EmptyMeta EXCEPT !.imports = Fx, !.functions = <<[n |-> "fn", v |-> "fx.Fn"]>>],
-     !.params = ("p1" :> ALit("int", "5") @@ "p2" :> AStr("two")),
+     !.params = ("p1" :> ALit("int", "5") @@ "p2" :> AStr("two") @@ "p8" :> APat(<<CFn("fn", "")>>)),
      !.services = (   "s1" :> [CtorSvc("fx.NewA", <<ALit("int", "1"), ARef("p1")>>) EXCEPT
                                  !.getter = "GetS1", !.type = "*fx.T", !.calls = <<Call("SetX", <<AStr("base")>>, FALSE)>>,
                                  !.fields = <<Field("F1", ALit("int", "9"))>>, !.tags = <<Tag("t1", 0)>>]
@@ -108,12 +108,14 @@ Layouts ==
     << <<"z.yaml">>, <<"a.yaml">> >>,                                         \* pattern order beats name order
     << <<"x/10.yaml", "x/9.yaml">>, <<"one.yaml">> >>,
     << <<"conf-local/app.yaml", "conf/app.yaml">>, <<"b/c.yaml">>, <<"x/10.yaml", "x/9.yaml">> >>,
-    << <<"a.yaml">>, <<"sub/a.yaml", "sub/b.yaml", "sub/c.yaml">> >> }
+    << <<"a.yaml">>, <<"sub/a.yaml", "sub/b.yaml", "sub/c.yaml">> >>,
+    << <<"c,d.yaml">>, <<"e,1.yaml", "e,2.yaml">> >> }                        \* commas are ordinary characters of a file name
 PatternOf(fs) ==
   CASE fs = <<"one.yaml">> -> "one.yaml" [] fs = <<"x/10.yaml", "x/9.yaml">> -> "x/*.yaml"
     [] fs = <<"conf-local/app.yaml", "conf/app.yaml">> -> "conf*/*.yaml" [] fs = <<"z.yaml">> -> "./z.yaml"
     [] fs = <<"a.yaml">> -> "sub/../a.yaml" [] fs = <<"b/c.yaml">> -> "b//c.yaml"
     [] fs = <<"sub/a.yaml", "sub/b.yaml", "sub/c.yaml">> -> "sub/?.yaml"
+    [] fs = <<"c,d.yaml">> -> "c,d.yaml" [] fs = <<"e,1.yaml", "e,2.yaml">> -> "e,?.yaml"
 FlatFiles(l) == FlattenSeq(l)
 
 -----------------------------------------------------------------------------
